@@ -46,7 +46,7 @@ CHECKS = {
             dict(pkg="gate", run="^FuzzC09$", kind="fuzz", seconds=60),
         ],
         rule="pre-drawn scenarios on the public open_game_manager API: 1..4 set-ups of 1..10 participants with fresh game counts, ready signals in every order/subset with repetitions and unknown ids, re-set-up with signals still pending or unprocessed, rebuild from GetState(), and (timeout leg, executed side by side) real 1-2 s timeout expiry; oracle = firing log obligations (at most once per set-up, not before the last missing signal unless the timeout elapsed, reported game count/participants/all ready, superseded set-up silent, unknown rejected without state change); non-trivial = >=2 participants and (duplicate | unknown | superseding set-up with pending signals | timeout firing | rebuild); distinct = distinct op sequences",
-        mandatory=dict(quick=["empty_setup", "dup", "unknown", "supersede_pending", "timeout_fire", "rebuild", "all_ready_fire", "parts_1", "parts_10"]),
+        mandatory=dict(quick=['same_game_count_again', "empty_setup", "dup", "unknown", "supersede_pending", "timeout_fire", "rebuild", "all_ready_fire", "parts_1", "parts_10"]),
         assumptions=["firing is looked for during a bounded window (30 ms grace after the last operation, 1.5 s margin around timeouts); monotonic time only as a lower bound"],
     ),
     "C02": dict(
@@ -57,7 +57,7 @@ CHECKS = {
                     quick=dict(shards=2, checks=150, timeout=300, gomaxprocs=3),
                     thorough=dict(shards=8, checks=2500, timeout=1800, gomaxprocs=3))],
         rule="cases = generated histories with explicit seat layouts (gaps, sitting-out and busted players between participants, dead button / dead small blind after departures and busts), 2..10 participants, both rules, newcomers arriving and non-participants leaving while a hand runs; oracle: the hand's list names every dealt-in player once, is a rotation of the clockwise seat order, entry i starts with M[i]'s bankroll at open, the mapping is unchanged in every later snapshot, every accepted action was applied by the backend to the entry of its submitter, entry i's result is credited to M[i] only; non-trivial = a hand with a gap and (dead dealer | dead SB | sitting-out player between participants) or a membership change during the hand; distinct = distinct abstract traces",
-        mandatory=dict(quick=['dead_dealer', 'dead_sb', 'gap', 'sitout_between', 'inhand_reserve', 'inhand_leave', 'participants_2', 'participants_6']),
+        mandatory=dict(quick=['participant_bought_chips_during_hand', 'dead_dealer', 'dead_sb', 'gap', 'sitout_between', 'inhand_reserve', 'inhand_leave', 'participants_2', 'participants_6']),
         assumptions=ASSUME_COMMON,
     ),
     "C05": dict(
@@ -86,11 +86,14 @@ CHECKS = {
                dict(pkg="table", run="^TestC07Retry$",
                     quick=dict(shards=4, checks=3, timeout=300),
                     thorough=dict(shards=16, checks=12, timeout=900)),
+               dict(pkg="table", run="^TestC07Pinned$",
+                    quick=dict(shards=1, checks=1, timeout=240),
+                    thorough=dict(shards=1, checks=1, timeout=240)),
                dict(pkg="table", run="^TestC07Interval$",
                     quick=dict(shards=6, checks=4, timeout=300),
                     thorough=dict(shards=16, checks=24, timeout=1200))],
         rule='cases = histories of 2-15 hands with membership changes plus control operations at drawn moments: CloseTable inside the settled callback (continue delay), Close/Release after the gate was armed, repeated SetUpTableGame while the gate is pending or a hand runs; oracle: life-cycle automaton over every published status, game count +1 and fresh game id per opened hand, no open while unsettled, per-hand fields reset at every engine fence, no open after close/release; interval part (c07i): the same histories (1-3 hands) on tables with a real 1 s continue delay; CloseTable / ReleaseTable / UpdateBlind(-1) / an arrival lands at a drawn offset 0-1.4 s after the settlement (both sides of the delayed continue step); whichever came first no hand may open afterwards (if the gate was armed it is completed and watched), and when the operation returned < 0.9 s after the settlement was published (so certainly before the 1 s step) the next hand must not even be set up, and a break must pause; retry part (c07r): the gate fires while blinds are unset (3 ways), so the first open attempt fails and the engine sleeps 3 s before retrying; a drawn script of 1-3 UpdateBlind calls (valid level / break / unset again) lands inside that window; final break => no hand may open (game count 0, no hand state), final valid => hand 1 opens and is created with exactly that level; cases whose script took more than 2.5 s are dropped, not judged; non-trivial = >=3 consecutive hands with a membership change or any control operation; distinct = distinct abstract traces',
-        mandatory=dict(quick=['close_in_settled_cb', 'closed_after_gate_armed', 'released_after_gate_armed', 'double_setup', 'setup_while_hand_runs', 'three_hands_with_change', 'retry_final_break', 'retry_final_valid', 'delay_close', 'delay_release', 'delay_break']),
+        mandatory=dict(quick=['setup_and_signals_in_settled_cb', 'settled_cb_held_open', 'close_in_settled_cb', 'closed_after_gate_armed', 'released_after_gate_armed', 'double_setup', 'setup_while_hand_runs', 'three_hands_with_change', 'retry_final_break', 'retry_final_valid', 'delay_close', 'delay_release', 'delay_break']),
         assumptions=ASSUME_COMMON,
     ),
     "C08": dict(
@@ -116,7 +119,7 @@ CHECKS = {
                     quick=dict(shards=3, checks=120, timeout=300),
                     thorough=dict(shards=12, checks=2000, timeout=1800))],
         rule='cases = generated table histories in which, at every decision point (group requests, turns, after settlement, paused), 0-3 intruder attempts are drawn from a 5x9 actor/action matrix (current player with a disallowed kind, other participant, folded/all-in participant, seated non-participant, stranger) x (fold check call bet raise allin pass ready pay); oracle: an attempt the hand does not allow returns an error and table JSON, hand-state JSON, successful backend calls and emitted events are identical before and after; every accepted driver action is applied exactly once and announced once with player, seat, action, round, hand; concurrent part (c10b): at drawn turns every player at the table and strangers submit an action at the same instant - accepted submissions = announced actions, each successful backend call belongs to the entry whose turn it then was, the hand still settles with chips conserved and equal to the pure replay; non-trivial = a case with >=1 refused attempt by a dealt-in player out of turn and >=1 by a non-participant; distinct = distinct abstract traces',
-        mandatory=dict(quick=['cell:current/pass', 'cell:participant/fold', 'cell:inactive/check', 'cell:nonparticipant/call', 'cell:stranger/bet', 'attempt_group_request', 'attempt_after_settle', 'attempt_when_paused']),
+        mandatory=dict(quick=['table_stopped_mid_hand_PauseTable', 'table_stopped_mid_hand_CloseTable', 'cell:current/pass', 'cell:participant/fold', 'cell:inactive/check', 'cell:nonparticipant/call', 'cell:stranger/bet', 'attempt_group_request', 'attempt_after_settle', 'attempt_when_paused']),
         assumptions=ASSUME_COMMON,
     ),
     "C11": dict(
